@@ -409,6 +409,7 @@ type Path struct {
 	witness  *Violation
 	tornIDs  []*Term
 	crcArgs  []*Term
+	volatile map[*Value]bool // atomic cells another goroutine may change at any moment (vVolatile)
 	pcDirty  bool // assumptions added since the last satisfiability check
 }
 
